@@ -58,6 +58,7 @@ theorem step_mono (H : Heap) (op : Op) :
     split
     · exact ⟨Nat.le_refl _, [], by simp⟩
     · split <;> exact ⟨Nat.le_refl _, [], by simp⟩
+  | newData v => exact ⟨Nat.le_refl _, [], by simp [step]⟩
   | newParams d =>
     simp only [step]
     split
@@ -161,11 +162,11 @@ def sentCore (H : Heap) (c : Nat) (args : Args) : Except Err Sent :=
   | .error e => .error e
 
 /-- the same, computed from the view alone -/
-def pureSend (v : Conn × Str × Bool × List Adapter) (hd : Option Dict) (pd : Option UDict) (args : Args) :
-    Except Err Sent :=
+def pureSend (v : Conn × Str × Bool × List Adapter) (hd : Option Dict) (pd : Option UDict) (body : Body)
+    (args : Args) : Except Err Sent :=
   match applyAll v.2.2.2 { path := args.path, headers := copyHeaders hd } with
   | .error e => .error e
-  | .ok ra => .ok (eraseId (assemble ⟨v.2.1, v.2.2.1, 0⟩ ra args.method pd args.data (respFold v.2.2.2 (decodeResp args.raw args.resp))))
+  | .ok ra => .ok (eraseId (assemble ⟨v.2.1, v.2.2.1, 0⟩ ra args.method pd body (respFold v.2.2.2 (decodeResp args.raw args.resp))))
 
 theorem eraseId_assemble (impl : Impl) (ra : RA) (m : Option Str) (pd : Option UDict) (d : Body) (r : Except Err J) :
     eraseId (assemble impl ra m pd d r) = eraseId (assemble ⟨impl.address, impl.sendIds, 0⟩ ra m pd d r) := by
@@ -173,9 +174,9 @@ theorem eraseId_assemble (impl : Impl) (ra : RA) (m : Option Str) (pd : Option U
 
 theorem sentCore_eq (H : Heap) (c : Nat) (args : Args) :
     sentCore H c args =
-      match viewCore H c, optDict H args.headers, optParams H args.params with
-      | some v, some hd, some pd => pureSend v hd pd args
-      | _, _, _ => .error .keyError := by
+      match viewCore H c, optDict H args.headers, optParams H args.params, optData H args.data with
+      | some v, some hd, some pd, some body => pureSend v hd pd body args
+      | _, _, _, _ => .error .keyError := by
   unfold sentCore
   rw [(request_spec H c args).1]
   unfold requestPure viewCore
@@ -189,12 +190,15 @@ theorem sentCore_eq (H : Heap) (c : Nat) (args : Args) :
       cases hp : optParams H args.params with
       | none => simp
       | some pd =>
-        simp only [Option.map_some, pureSend]
-        cases ha : applyAll as { path := args.path, headers := copyHeaders hd } with
-        | error e => simp
-        | ok ra =>
-          simp only []
-          rw [← eraseId_assemble impl]
+        cases hb : optData H args.data with
+        | none => simp
+        | some body =>
+          simp only [Option.map_some, pureSend]
+          cases ha : applyAll as { path := args.path, headers := copyHeaders hd } with
+          | error e => simp
+          | ok ra =>
+            simp only []
+            rw [← eraseId_assemble impl]
 
 /-! ## what a derivation creates -/
 
@@ -354,6 +358,7 @@ theorem step_userList {H : Heap} (hi : Inv H) {l : Nat} (hl : l ∈ H.userLists)
       · have := (hi.user_ok l hl).2 c cn hcn
         exact ⟨by simp only []; rw [List.getElem?_set_ne this], hl⟩
       · exact same
+  | newData v => exact same
   | newParams d => simp only [step]; split <;> exact same
   | newClass bases mro pmap own dlg => simp only [step]; split <;> exact same
   | newCaller t cls =>
@@ -457,6 +462,7 @@ theorem step_userDicts (H : Heap) (op : Op) :
     split
     · exact Or.inl rfl
     · split <;> exact Or.inl rfl
+  | newData v => exact Or.inl rfl
   | newParams d =>
     simp only [step]
     split
@@ -533,5 +539,86 @@ theorem optParams_user {H : Heap} (hd : DInv H) {r : Nat} (hr : r ∈ H.userDict
   obtain ⟨d, hu, hc⟩ := hd r hr
   obtain ⟨u, htu⟩ := toUDict_of_CallerCell hc
   exact ⟨d, u, by simp [optDict, hu], by simp [optParams, hu, htu]⟩
+
+/-! ## the caller's structured data objects: only ever added, never written -/
+
+theorem mkConn_datas {H H' : Heap} {t own plain n} (h : mkConn H t own plain = some (H', n)) : H'.datas = H.datas := by
+  unfold mkConn at h
+  split at h
+  · cases h
+  · split at h
+    · split at h
+      · cases h
+      · split at h
+        · cases h
+        · cases h; rfl
+    · cases h; rfl
+
+theorem getConn_datas (H : Heap) (k : Nat) (comps : Option (List Str)) : (getConn H k comps).1.datas = H.datas := by
+  rcases getConn_heap H k comps with h | ⟨cl, pfx, hcl, h⟩ | ⟨cl, pfx, H1, n, hcl, hmk, h⟩
+  · rw [h]
+  · rw [h]
+  · rw [h]; have hm := mkConn_datas hmk; exact hm
+
+theorem step_datas (H : Heap) (op : Op) : ∃ y, (step H op).1.datas = H.datas ++ y := by
+  have same : ∀ {H' : Heap}, H'.datas = H.datas → ∃ y, H'.datas = H.datas ++ y := fun h => ⟨[], by simp [h]⟩
+  cases op with
+  | newList as => exact same rfl
+  | listAppend l a => simp only [step]; split <;> (try split) <;> exact same rfl
+  | newDict d => exact same rfl
+  | newData v => exact ⟨[v], rfl⟩
+  | newParams d => simp only [step]; split <;> exact same rfl
+  | newClass bases mro pmap own dlg => simp only [step]; split <;> exact same rfl
+  | mk t own plain =>
+    simp only [step]
+    split
+    · rename_i H' n h; have hm := mkConn_datas h; exact same hm
+    · exact same rfl
+  | add c a => simp only [step]; split <;> (try split) <;> exact same rfl
+  | newCaller t cls =>
+    rcases step_newCaller_cases H t cls with ⟨e, h⟩ | ⟨cl, _, _, h⟩ | ⟨H', n, t', cl, hmk, _, _, h⟩
+    · rw [h]; exact same rfl
+    · rw [h]; exact same rfl
+    · rw [h]; have hm := mkConn_datas hmk; exact same hm
+  | clone k own =>
+    simp only [step]
+    split
+    · exact same rfl
+    · split
+      · rename_i H' n h; have hm := mkConn_datas h; exact same hm
+      · exact same rfl
+  | connOf k => simp only [step]; split <;> exact same rfl
+  | cached k pfx => simp only [step]; split <;> (try split) <;> exact same rfl
+  | call k m args =>
+    rcases step_call_cases H k m args with ⟨e, h⟩ | ⟨comps, a', h⟩
+    · rw [h]; exact same rfl
+    · rw [h]
+      rcases doCall_heap H k comps a' with h2 | ⟨c', h2⟩
+      · rw [h2]; exact same (getConn_datas H k comps)
+      · rw [h2]; exact same ((request_effect _ c' a').datas.trans (getConn_datas H k comps))
+  | request c' args =>
+    simp only [step]
+    have h2 := (request_effect H c' args).datas
+    split
+    · rename_i H' s heq
+      have : H' = (request H c' args).1 := by rw [heq]
+      subst this; exact same h2
+    · rename_i H' e heq
+      have : H' = (request H c' args).1 := by rw [heq]
+      subst this; exact same h2
+
+theorem run_datas (H : Heap) (ops : List Op) : ∃ y, (run H ops).datas = H.datas ++ y := by
+  induction ops generalizing H with
+  | nil => exact ⟨[], by simp [run]⟩
+  | cons op ops ih =>
+    obtain ⟨y1, h1⟩ := step_datas H op
+    obtain ⟨y2, h2⟩ := ih (step H op).1
+    exact ⟨y1 ++ y2, by simp only [run]; rw [h2, h1, List.append_assoc]⟩
+
+theorem optData_ext {H H' : Heap} (y : List J) (h : H'.datas = H.datas ++ y) (d : DataArg)
+    (hr : ∀ r, d = .obj r → r < H.datas.length) : optData H' d = optData H d := by
+  cases d with
+  | obj r => simp only [optData]; rw [h, List.getElem?_append_left (hr r rfl)]
+  | _ => rfl
 
 end HttpConn
